@@ -625,6 +625,8 @@ func TestVF(t *testing.T) {
 		start := time.Now()
 		if spec.Procs > 0 {
 			runtime.GOMAXPROCS(spec.Procs)
+		} else {
+			runtime.GOMAXPROCS(4)
 		}
 		p.run(t, spec, res)
 		vfWatchdog.deadline.Store(0)
